@@ -46,6 +46,9 @@ def gen_cases(seed, tier):
         for jobs in (0, 1, 2, 3, 4):
             for mode in ("plain", "sleep", "barrier", "blocker", "unwind"):
                 out.append((n, jobs, mode))
+    # a long queue behind fully occupied workers: every job still runs exactly once
+    for n, jobs in ([(1, 70), (1, 200), (2, 150), (3, 400)] if tier == "quick" else [(1, 64), (1, 65), (1, 66), (1, 200), (2, 129), (2, 300), (3, 400), (4, 1000), (8, 3000)]):
+        out.append((n, jobs, "flood"))
     k = 60 if tier == "quick" else 1500
     for _ in range(k):
         n = r.choice([1, 2, 3, 4, 5, 8, 16])
@@ -99,7 +102,7 @@ def run(o, ctx, tier, seed, replay=None):
 
 register("C13", lean=["Khttp.Props.C13", "Khttp.Props.C13Skeleton"], run=run, search=False,
          rule="POOL scenarios on the real ThreadPool (cfg-gated VerifPool): pool sizes 1-3 x 0-4 jobs x {plain, sleeping, barrier of min(n,jobs) jobs (completes only if they really run in parallel), "
-              "blocker (job 0 waits until all others finished: needs the others to proceed on other workers), unwind (the pool's owner panics after submitting sleeping jobs: shutdown by an unwinding thread)} enumerated; in every scenario the number of finished jobs is read the moment the shutdown returns, plus 60 (quick) / 1500 (thorough) random configurations up to 16 workers / 120 jobs. "
+              "blocker (job 0 waits until all others finished: needs the others to proceed on other workers), unwind (the pool's owner panics after submitting sleeping jobs: shutdown by an unwinding thread), flood (every worker pinned while 70-400 jobs queue up)} enumerated; in every scenario the number of finished jobs is read the moment the shutdown returns, plus 60 (quick) / 1500 (thorough) random configurations up to 16 workers / 120 jobs. "
               "The recorded synchronisation trace of every run is replayed through the model's step?; distinct_nontrivial = distinct canonical traces with more than 3 events.",
          assumptions=["jobs terminate and do not panic", "mpsc is an unbounded FIFO; Mutex gives mutual exclusion; join waits for the thread (std, modelled)",
                       "OS scheduling and fairness are not modelled: the interleavings seen are those the harness provokes (partial for 'every interleaving' on the real code; the theorems cover every interleaving of the model)"],
